@@ -160,4 +160,40 @@ theorem shape_freeItem_ok : Mvcc_freeItem =
 theorem shape_allocItem_ok : Mvcc_allocItem =
     ["if-else()", "mallocFun", "return()"] := rfl
 
+/-- nitro.go `.DefaultConfig` -/
+theorem shape_DefaultConfig_ok : Mvcc_DefaultConfig =
+    ["SetKeyComparator", "return(_)"] := rfl
+
+/-- nitro.go `*Config.SetKeyComparator` -/
+theorem shape_SetKeyComparator_ok : Mvcc_SetKeyComparator =
+    ["newInsertCompare", "newIterCompare", "newExistCompare"] := rfl
+
+/-- nitro.go `*Config.UseMemoryMgmt` -/
+theorem shape_UseMemoryMgmt_ok : Mvcc_UseMemoryMgmt =
+    ["if(== || ==)"] := rfl
+
+/-- nitro.go `*Config.UseDeltaInterleaving` -/
+theorem shape_UseDeltaInterleaving_ok : Mvcc_UseDeltaInterleaving =
+    [] := rfl
+
+/-- nitro.go `.NewWithConfig` -/
+theorem shape_NewWithConfig_ok : Mvcc_NewWithConfig =
+    ["New", "New", "AddInt64", "NewWithConfig", "newStoreConfig", "initSizeFuns", "MakeBuf", "defer", "FreeBuf", "Insert", "return(_)"] := rfl
+
+/-- nitro.go `*Nitro.newStoreConfig` -/
+theorem shape_newStoreConfig_ok : Mvcc_newStoreConfig =
+    ["DefaultConfig", "if()", "newBSDestructor", "return(_)"] := rfl
+
+/-- nitro.go `*Nitro.initSizeFuns` -/
+theorem shape_initSizeFuns_ok : Mvcc_initSizeFuns =
+    ["SetItemSizeFunc", "SetItemSizeFunc", "SetItemSizeFunc"] := rfl
+
+/-- nitro.go `*Nitro.NewWriter` -/
+theorem shape_NewWriter_ok : Mvcc_NewWriter =
+    ["newWriter", "Init", "Add", "go", "collectionWorker", "if()", "Add", "go", "freeWorker", "return(_)"] := rfl
+
+/-- nitro.go `*Nitro.GetSnapshots` -/
+theorem shape_GetSnapshots_ok : Mvcc_GetSnapshots =
+    ["MakeBuf", "defer", "FreeBuf", "NewIterator", "SeekFirst", "for()", "Valid", "Next", "Get", "return(_)"] := rfl
+
 end NitroVerif.ShapeTie.Mvcc
